@@ -21,9 +21,9 @@ func (propC07) Rule() string {
 }
 func (propC07) Runs(tier string) int {
 	if tier == "thorough" {
-		return 60000
+		return 600000
 	}
-	return 4000
+	return 60000
 }
 
 func genConfigOps(g *Gen, r *RNG, dotOK bool) []Op {
